@@ -1,1 +1,18 @@
 import Abmarl.Props.C03
+#print axioms Abmarl.C03_reachable
+#print axioms Abmarl.C03_every_step
+#print axioms Abmarl.C03_moves_preserve
+#print axioms Abmarl.C03_reset_establishes
+#print axioms Abmarl.applyComps_spec
+#print axioms Abmarl.applyComp_spec
+#print axioms Abmarl.WInv_of_specC12
+#print axioms Abmarl.WInv_of_clauses
+#print axioms Abmarl.runGOp_step
+#print axioms Abmarl.runGOps_inv
+#print axioms Abmarl.trace_prefix
+#print axioms Abmarl.move_sframe
+#print axioms Abmarl.C03_attacks
+#print axioms Abmarl.attack_preserves_WInv_any
+#print axioms Abmarl.successive_attacks
+#print axioms Abmarl.World.move_preserves_WInv
+#print axioms Abmarl.World.orient_preserves_WInv
